@@ -219,6 +219,13 @@ def loadFmtO (o : Opts) (fs : Fields) (d : J) (t : T) : Fmt → R Val
   | .yaml => loadYamlO o fs (embY d)
   | .toml => loadTomlO o fs t
 
+/-- the same with the deterministic (sorted) walk of `toLowerCaseKeyMap`: the faithful model on documents whose keys
+collide up to case. -/
+def loadFmtDet (o : Opts) (fs : Fields) (d : J) (t : T) : Fmt → R Val
+  | .json => loadJsonDet o fs d
+  | .yaml => loadYamlDet o fs (embY d)
+  | .toml => loadTomlDet o fs t
+
 def VM.get? : VM → Str → Option Val
   | .nil, _ => none
   | .cons k v t, q => if k = q then some v else t.get? q
